@@ -375,6 +375,11 @@ func importing(g gor) bool {
 	if strings.Contains(g.text, "downloader.(*Downloader).process") {
 		return true
 	}
+	if strings.Contains(g.text, "downloader.(*Downloader).fetchBlocks.func") {
+		// "go func() { d.process() ... }()" that was created but has not run yet: the import it will do
+		// (also after the cycle itself has ended) is still to come
+		return true
+	}
 	if strings.Contains(g.text, "fetcher.(*Fetcher).insert.func") {
 		// an import that has finished and only reports completion to the fetcher loop (for ever, if
 		// that loop belongs to a manager that was stopped meanwhile) is not running any more
